@@ -50,7 +50,64 @@ pub fn pnum(p: usize) -> PlayerNum {
     }
 }
 
+/// Which nodes a pass of a solver expands (for [HNode::frontier_tasks])
+#[derive(Clone, Copy, PartialEq, Debug)]
+pub enum Frontier {
+    /// vanilla: every chance outcome and every action
+    Full,
+    /// chance sampled: one outcome per chance node
+    Sampled,
+    /// external sampling with the given player updating: one outcome per chance node and one
+    /// action per node of the other player
+    External(u8),
+}
+
 impl HNode {
+    /// Replica of the level-wise frontier search of the parallel solvers (`thread_threshold`):
+    /// the number of frontier nodes that are handed to the pool as tasks when the solver runs
+    /// with `threads` workers (task target 3 x threads). Only the nodes still *unexpanded* on the
+    /// current level when the target is reached become tasks, so a wide level that reaches the
+    /// target in one step yields no tasks at all. A heuristic used to pick thread counts that
+    /// make the solve parallel at all (which child a sampled node expands is not modelled, and the
+    /// library may compress the tree); what ran in parallel is measured from the visit log.
+    pub fn frontier_tasks(&self, mode: Frontier, threads: usize) -> usize {
+        let target = threads.saturating_mul(3);
+        let mut queue: Vec<&HNode> = vec![self];
+        let mut work: Vec<&HNode> = Vec::new();
+        while !(queue.is_empty() && work.is_empty()) && queue.len() + work.len() < target {
+            match queue.pop() {
+                None => std::mem::swap(&mut queue, &mut work),
+                Some(HNode::Term(_)) => {}
+                Some(HNode::Chance { outs, .. }) => {
+                    let live = outs.iter().filter(|(w, _)| *w > 0.0).map(|(_, n)| n);
+                    if mode == Frontier::Full {
+                        work.extend(live);
+                    } else {
+                        work.extend(live.take(1));
+                    }
+                }
+                Some(HNode::Player { p, acts, .. }) => match mode {
+                    Frontier::External(active) if *p != active => work.extend(acts.iter().take(1).map(|(_, n)| n)),
+                    _ => work.extend(acts.iter().map(|(_, n)| n)),
+                },
+            }
+        }
+        queue.len()
+    }
+
+    /// The thread count among `candidates` for which the (modelled) frontier has the most tasks,
+    /// with that number of tasks. Ties go to the earlier candidate.
+    pub fn best_threads(&self, modes: &[Frontier], candidates: &[usize]) -> (usize, usize) {
+        let mut best = (candidates[0], 0usize);
+        for &t in candidates {
+            let tasks = modes.iter().map(|m| self.frontier_tasks(*m, t)).max().unwrap_or(0);
+            if tasks > best.1 {
+                best = (t, tasks);
+            }
+        }
+        best
+    }
+
     pub fn count_nodes(&self) -> usize {
         match self {
             HNode::Term(_) => 1,
